@@ -41,47 +41,7 @@ vars == <<rid, tabs, mp, cache, hist, answers, rawdiv, taint>>
 \*             ever has a divisor other than 1, and the code is never judged against it)
 \* tabs = SpecTables(Res): a function of rid, kept in the state only so that it is computed once per result
 
-Row(t, x, y) == [t |-> t, y |-> ("x" :> x) @@ ("y" :> y)]
-PQ(p, q) == ("p" :> p) @@ ("q" :> q)
-
-Layouts == <<
-    \* one segment
-    << [pars |-> PQ(7, 11), rows |-> <<Row(0, 2, 3), Row(1, 3, 0), Row(2, 1, 4)>>] >>,
-    \* two segments, both parameters change
-    << [pars |-> PQ(7, 11), rows |-> <<Row(0, 2, 3), Row(1, 3, 0), Row(2, 1, 4)>>],
-       [pars |-> PQ(5, 13), rows |-> <<Row(3, 0, 4), Row(5, 4, 1)>>] >>,
-    \* three segments (2 + 1 + 3 rows), the last one back to the first one's p
-    << [pars |-> PQ(3, 11), rows |-> <<Row(0, 2, 3), Row(2, 5, 1)>>],
-       [pars |-> PQ(3, 2),  rows |-> <<Row(3, 1, 1)>>],
-       [pars |-> PQ(7, 4),  rows |-> <<Row(4, 0, 2), Row(6, 3, 3), Row(7, 2, 6)>>] >> >>
-
-(***************************************************************************)
-(* The Simulator path: simulate, update a parameter, simulate again, for   *)
-(* the variant whose rates do not depend on the state, so that the exact   *)
-(* flow is linear in time and integer at integer times.                    *)
-(***************************************************************************)
-SimScenario == [y0 |-> ("x" :> 2) @@ ("y" :> 3),
-                steps |-> << [pars |-> PQ(7, 11), times |-> <<0, 1, 2>>],
-                             [pars |-> PQ(5, 11), times |-> <<3, 4>>],
-                             [pars |-> PQ(5, 3),  times |-> <<6>>] >>]
-
-LinFlow(cs, y0, t0, t) ==
-    [v \in M!VarSet(cs) |-> y0[v] + M!Rhs(cs, y0, t0)[VarIdx(cs, v)] * (t - t0)]
-
-RECURSIVE SimSegs(_, _, _, _)
-SimSegs(c, steps, y0, t0) ==
-    IF steps = <<>> THEN <<>>
-    ELSE LET s    == Head(steps)
-             cs   == WithPars(c, s.pars)
-             rows == [j \in DOMAIN s.times |-> [t |-> s.times[j], y |-> LinFlow(cs, y0, t0, s.times[j])]]
-             last == rows[Len(rows)]
-         IN <<[pars |-> s.pars, rows |-> rows]>> \o SimSegs(c, Tail(steps), last.y, last.t)
-
-FSeg == <<2, 5, 3>>
-FRow == <<2, 3, 5, 7, 11, 13>>
-MkRes(variant, segs) ==
-    LET r0 == [variant |-> variant, segs |-> segs, fscalar |-> 3, fseg |-> <<>>, frow |-> <<>>]
-    IN [r0 EXCEPT !.fseg = SubSeq(FSeg, 1, NSeg(r0)), !.frow = SubSeq(FRow, 1, TotalRows(r0))]
+\* Row, PQ, Layouts, SimScenario, SimSegs, MkRes: see ResultViews (shared with ResultViewsSession)
 
 Results ==
     [k \in 1..9 |-> MkRes(<<"par", "state", "sur">>[((k - 1) \div 3) + 1], Layouts[((k - 1) % 3) + 1])]
